@@ -135,10 +135,11 @@ Proof.
     { unfold me; lia. } { lia. } { intros p Hp. apply V4. unfold me in *; lia. }
     set (s2 := down_iter _ _ _ s0) in *. destruct F as (F1 & F2 & F3 & F4 & F5).
     cbn [err size cap nalloc csize nctor ndtor cells set_size].
-    repeat split; try lia; try congruence.
-    + intros p0; rewrite P, P0; auto.
-    + intros Hp. lia.
-    + intros Hp. rewrite P, P0. destruct (Nat.ltb_spec p (csize s)); [apply W4 | apply W5]; lia.
+    repeat apply conj; try lia; try congruence.
+    intros p; repeat apply conj; intros Hp.
+    + rewrite P, P0; auto.
+    + rewrite P, P0, Nat.sub_0_r. apply isCon_valof, W4; lia.
+    + rewrite P, P0. destruct (Nat.ltb_spec p (csize s)); [apply W4 | apply W5]; lia.
   - assert (Hc : 1 <= count) by lia.
     destruct (loop1_spec mvc count Hc (size s + count - me) (size s + count) s0) as (F & C & N & P).
     { lia. } { unfold me; lia. } { unfold me; lia. }
@@ -151,23 +152,25 @@ Proof.
     { intros p Hp. rewrite P. unfold me in *. cases. rewrite P0; auto. }
     destruct (Nat.eq_dec (me - (index + count)) 0) as [E2|E2].
     + rewrite E2. cbn [down_iter err size cap nalloc csize nctor ndtor cells set_size].
-      repeat split; try lia; try congruence.
-      * intros Hp. apply Q1. unfold me in *; lia.
-      * intros Hp. rewrite P, P0. unfold me in *. cases. 
-      * intros Hp. unfold me in *. destruct (Nat.ltb_spec p (csize s)); [apply Q2; auto|].
+      repeat apply conj; try lia; try congruence.
+      intros p; repeat apply conj; intros Hp.
+      * apply Q1. unfold me in *; lia.
+      * rewrite P, P0. unfold me in *. cases.
+      * unfold me in *. destruct (Nat.ltb_spec p (csize s)); [apply Q2; auto|].
         rewrite Q1 by lia. apply W5; lia.
     + assert (Eme : me = csize s) by (unfold me in *; lia).
       destruct (loop2_spec mva smv count Hc (me - (index + count)) me s1) as (G & C' & N' & P').
       { lia. } { lia. } { intros p Hp. apply Q2. lia. }
       set (s2 := down_iter _ _ _ s1) in *. destruct G as (G1 & G2 & G3 & G4 & G5).
       cbn [err size cap nalloc csize nctor ndtor cells set_size].
-      repeat split; try lia; try congruence.
-      * intros Hp. destruct (P' p) as (_ & _ & P3). rewrite P3 by lia. apply Q1. lia.
-      * intros Hp. destruct (P' p) as (P1' & _ & P3).
+      repeat apply conj; try lia; try congruence.
+      intros p; repeat apply conj; intros Hp.
+      * destruct (P' p) as (_ & _ & P3). rewrite P3 by lia. apply Q1. lia.
+      * destruct (P' p) as (P1' & _ & P3).
         destruct (Nat.ltb_spec p me).
         -- rewrite P1' by lia. rewrite Q1 by lia. reflexivity.
         -- rewrite P3 by lia. rewrite P, P0. cases.
-      * intros Hp. destruct (P' p) as (_ & P2' & P3).
+      * destruct (P' p) as (_ & P2' & P3).
         destruct (Nat.ltb_spec p (csize s)); [apply P2', Q2; auto|].
         rewrite P3 by lia. rewrite Q1 by lia. apply W5; lia.
 Qed.
